@@ -201,7 +201,7 @@ class Limit:
             self._dirty = True
             self._scoreboard[sb_idx] -= 1
 
-    def ok(self, index: Optional[int], upper: bool, resource: Optional["Resource"] = None) -> bool:
+    def ok(self, index: Optional[int], upper: bool, resource: Optional["Resource"] = None, amount: int = 1) -> bool:
         """
         Check if the counter is within the limit.
 
@@ -209,6 +209,8 @@ class Limit:
             index: Project scoreboard index (or None to check all)
             upper: True to check upper limits, False for lower limits
             resource: Resource to check (for resource-specific limits)
+            amount: Number of bookings that are about to be counted against an upper
+                limit in this slot (a team books one slot per member)
 
         Returns:
             True if within limit, False if exceeded
@@ -240,7 +242,7 @@ class Limit:
                 return True  # Outside interval, OK
 
             if self.upper:
-                return count < self.value
+                return count + amount <= self.value
             else:
                 return count >= self.value
 
@@ -364,7 +366,13 @@ class Limits:
         for limit in self._limits:
             limit.dec(index, resource)
 
-    def ok(self, index: Optional[int] = None, upper: bool = True, resource: Optional["Resource"] = None) -> bool:
+    def ok(
+        self,
+        index: Optional[int] = None,
+        upper: bool = True,
+        resource: Optional["Resource"] = None,
+        amount: int = 1,
+    ) -> bool:
         """
         Check if all limits are satisfied.
 
@@ -372,11 +380,12 @@ class Limits:
             index: Scoreboard index to check (or None for all)
             upper: True to check upper limits, False for lower
             resource: Resource to check for resource-specific limits
+            amount: Number of bookings about to be counted (see Limit.ok)
 
         Returns:
             True if all limits are satisfied
         """
-        return all(limit.ok(index, upper, resource) for limit in self._limits)
+        return all(limit.ok(index, upper, resource, amount) for limit in self._limits)
 
     def __bool__(self) -> bool:
         """Return True if there are any limits."""
